@@ -17,8 +17,14 @@ for wid in ids:
         out = f'/verif/seeded/{name}'
         if os.path.exists(f'{out}/meta.json') and 'detected_by' in json.load(open(f'{out}/meta.json')):
             continue
-        # 1. confirm
-        r = sh(f'/verif/confirm_seeded.sh {wt} {n}')
+        # 1. confirm (results of an earlier confirmation run are reused)
+        prev = open('/tmp/confirm_all.log').read() if os.path.exists('/tmp/confirm_all.log') else ''
+        pm = re.search(r'== ' + re.escape(wt) + r' #' + str(n) + r' .*?\n((?:.*\n)*?)RESULT (.*)', prev)
+        if pm:
+            class R: pass
+            r = R(); r.stdout = pm.group(1) + 'RESULT ' + pm.group(2)
+        else:
+            r = sh(f'/verif/confirm_seeded.sh {wt} {n}')
         m = re.search(r'RESULT demo_with_patch_exit=(\d+) existing_tests_exit=(\d+) demo_without_patch_exit=(\d+)', r.stdout)
         if not m:
             print(name, 'confirm failed', r.stdout[-300:]); continue
@@ -33,7 +39,17 @@ for wid in ids:
         sh(f'git -C /repo apply {d}/patch.diff')
         detected, broken, obligations = [], [], {}
         try:
-            for pid in props:
+            touched = set(re.findall(r'^\+\+\+ b/(.*)$', open(f'{d}/patch.diff').read(), re.M))
+            dirs = {os.path.dirname(t) for t in touched}
+            rel = set()
+            for dd in dirs:
+                if dd.startswith('headerfs'): rel |= {'C07','C08','C01'}
+                elif dd.startswith('banman'): rel |= {'C13'}
+                elif dd.startswith('cache'): rel |= {'C16'}
+                elif dd.startswith('pushtx'): rel |= {'C15'}
+                elif dd == '': rel |= {'C01','C02','C03','C05','C06','C09','C10','C19'}
+            rel.add(wid)
+            for pid in [x for x in props if x in rel]:
                 rr = sh(f'cd /verif && ./check {pid} --no-evidence')
                 if rr.returncode == 1 and 'VIOLATION' in rr.stdout:
                     detected.append(pid)
@@ -47,6 +63,6 @@ for wid in ids:
         meta = json.load(open(f'{d}/meta.json'))
         meta.update({'seeded_for': wid, 'confirmed_by_builder': {'demo_fails_with_patch': True, 'demo_passes_without_patch': True,
             'existing_stable_tests_pass_with_patch': True, 'note': 'confirm_seeded.sh in the scratch worktree; root-package failures limited to the four btcd-dependent tests that are not in the baseline' if btcd_only else 'confirm_seeded.sh in the scratch worktree'},
-            'checks_run': props, 'detected_by': detected, 'failed_obligations': obligations, 'checks_undecided_exit2': broken})
+            'checks_run': sorted(rel & set(props)), 'detected_by': detected, 'failed_obligations': obligations, 'checks_undecided_exit2': broken})
         json.dump(meta, open(f'{out}/meta.json', 'w'), indent=1)
         print(name, 'detected_by', detected, 'exit2', broken, flush=True)
